@@ -112,8 +112,9 @@ def known_paths():
     P["secret-data-alg-len"] = _reg("raw", (1, 2), {"type": "SecretData", "value": "70617373", "dtype": "SEED",
                                                     "alg": "AES", "len": 32}, [])
     P["cert-length-attribute"] = _reg("raw", (1, 2), cert, [["Cryptographic Length", 2048]])
-    P["cert-2.0-proxy"] = _reg("proxy", (2, 0), cert, [], probe_cert20=True)
-    P["cert-2.0-pie"] = _reg("pie", (2, 0), cert, [], probe_cert20=True)
+    # fixed in the repository (regression cases): certificate attributes read by the clients under 2.0
+    P["cert-2.0-proxy"] = _reg("proxy", (2, 0), cert, [["Name", {"v": "c", "t": X.UTS}]])
+    P["cert-2.0-pie"] = _reg("pie", (2, 0), cert, [])
     P["pie-two-names"] = _reg("pie", (1, 2), sym, [["Name", {"v": "a", "t": X.UTS}], ["Name", {"v": "b", "t": X.UTS}]])
     P["pie-sensitive"] = _reg("pie", (1, 4), sym, [["Sensitive", True]])
     return P
